@@ -106,7 +106,21 @@ def checkPipe (c : Case) : VM Unit := do
       prev := s
     if let some ls := snap "local_search" then
       if objOf ls != prev then vfail "C08,C16" "result-not-last-step" s!"last={showObj prev} result={showObj (objOf ls)}"
+  -- the objective value the real search holds for each accepted step (hook StepObjective) must be
+  -- the four components of that very schedule, exactly (no rounding, no other aggregate)
+  let stepObjs : List (Nat × Toks) := relLines.filterMap (fun t =>
+    match t with
+    | "P" :: "stepobj" :: k :: rest => some (nat! k, rest)
+    | _ => none)
+  for (k, lv) in stepObjs do
+    match steps[k]? with
+    | some (u, v, n, cst) =>
+      let expect := [toString u, toString v, toString n, toString cst]
+      if lv != expect then
+        vfail "C08,C04,C11" "search-objective-differs" s!"step={k} search=({" ".intercalate lv}) schedule=({" ".intercalate expect})"
+    | none => pure ()
   vstat "pipe.steps" steps.length
+  vstat "pipe.stepobjs" stepObjs.length
   -- correspondence of the stages with the model, each computed from the PREVIOUS OBSERVED snapshot
   let sameState (a b : Schedule) : List String := Schedule.diffFields a b
   -- (a) start schedule = from_tours(decoded tours): spawn every hooked tour, types in the order of
